@@ -5,6 +5,8 @@ V = os.path.dirname(os.path.dirname(os.path.abspath(__file__)))
 REPO = os.environ.get("VERIF_REPO", "/repo")
 os.environ["VERIF_EVIDENCE_DIR"] = os.path.join(V, "build", "evidence-seeded")
 props = [json.loads(l)["id"] for l in open(os.path.join(V, "properties.jsonl"))]
+if os.environ.get("SWEEP_PROPS"):
+    props = os.environ["SWEEP_PROPS"].split(",")      # only these checks (e.g. after one of them was strengthened)
 for d in sys.argv[1:]:
     for diff in sorted(glob.glob(os.path.join(os.path.abspath(d), "h*.diff"))):
         if subprocess.run(["git", "-C", REPO, "apply", diff]).returncode != 0:
